@@ -45,6 +45,7 @@ func c16(c *Ctx) {
 	r.Rule("R16.1", "link provenance: the link argument of every directory-entry/link construction in the builder packages derives (through phis, struct fields all of whose stores qualify, and range elements) from result 0 of a Store-reaching builder call or LinkSystem.Store, from an accessor of a caller-supplied entry/node, or from a parameter (checked at the callers)")
 	r.Rule("R16.2", "C12's propagation rule on the store side: for each call site in the builder packages whose callees reach LinkSystem.Store and that returns an error, the error reaches the enclosing function's error result on every path (quick builder: its error-less API panics, listed)")
 	r.Rule("R16.3", "every return of a builder function with (Link, …, error) results has a nil link, or a nil error, or is dominated by err == nil for the error it returns, or forwards the results of a repository callee that itself satisfies the rule (forwarding LinkSystem.Store raw is a violation: it returns (link, commitErr))")
+	r.Rule("R16.5", "builder calls share no mutable state: no package-level variable of the builder packages is written outside package initialisation (a link remembered from an earlier build was committed to that build's store, not this one)")
 	r.Rule("R16.4", "no LinkSystem.ComputeLink, no go statement, no deferred call that reaches a store in the builder packages; (*LinkSystem).Store calls the storage committer after the encoder (dependency assertion)")
 
 	bp := core.BuilderPkgs
@@ -160,7 +161,24 @@ func c16(c *Ctx) {
 			r.Check(ok2, "R16.1", key, c.P.Pos(call.Pos()), "link embedded via "+what+": "+why, "link embedded via "+what+" does not come from a completed store or a caller-supplied entry: "+why)
 		}
 	}
-	r.Floor("R16.1", n161, 6)
+	// returned links: every non-nil link a builder returns stems from a store of this very call (or a callee's)
+	for _, fn := range linkFns {
+		li := linkResultIndex(fn.Signature)
+		k := 0
+		for _, ret := range core.Returns(fn) {
+			rr := core.ResolvedResults(ret)
+			if core.IsNilConst(rr[li]) {
+				continue
+			}
+			k++
+			n161++
+			key := fmt.Sprintf("%s/returned-link#%d", core.FuncName(fn), k)
+			ok2, why := c.linkProvenance(fn, rr[li], L, map[ssa.Value]bool{}, 0)
+			r.Check(ok2, "R16.1", key, c.P.Pos(ret.Pos()), "returned link: "+why, "the returned link does not come from a store performed by this call: "+why)
+		}
+	}
+	r.Floor("R16.1", n161, 12)
+	c.checkNoBuilderGlobals("R16.5")
 
 	// ---- R16.4
 	nbad := 0
@@ -496,4 +514,53 @@ func dominatesInstr(a, b ssa.Instruction) bool {
 		}
 	}
 	return a.Block().Dominates(b.Block())
+}
+
+// checkNoBuilderGlobals: no store / map update / element store to a package-level variable of the builder packages
+// outside init (used by C16 R16.5 and C18 R18.5).
+func (c *Ctx) checkNoBuilderGlobals(rule string) {
+	r := c.R
+	n, nfun := 0, 0
+	for _, fn := range c.G.Funcs() {
+		rel, ok := c.P.PkgOf(fn)
+		if !ok || !core.BuilderPkgs[rel] {
+			continue
+		}
+		if fn.Name() == "init" || strings.HasPrefix(fn.Name(), "init#") || (fn.Parent() != nil && fn.Parent().Name() == "init") {
+			continue
+		}
+		nfun++
+		for _, b := range fn.Blocks {
+			for _, ins := range b.Instrs {
+				var gl *ssa.Global
+				switch x := ins.(type) {
+				case *ssa.Store:
+					if g, ok := core.RootOfAddr(x.Addr).(*ssa.Global); ok {
+						gl = g
+					}
+				case *ssa.MapUpdate:
+					if u, ok := x.Map.(*ssa.UnOp); ok {
+						if g, ok := core.RootOfAddr(u.X).(*ssa.Global); ok {
+							gl = g
+						}
+					}
+				case *ssa.Call:
+					// sync.Once / Mutex on a package-level variable guards package-level state
+					if f := x.Call.StaticCallee(); f != nil && f.Pkg != nil && f.Pkg.Pkg.Path() == "sync" && len(x.Call.Args) > 0 {
+						if g, ok := core.RootOfAddr(x.Call.Args[0]).(*ssa.Global); ok {
+							gl = g
+						}
+					}
+				}
+				if gl == nil {
+					continue
+				}
+				n++
+				r.Violate(rule, fmt.Sprintf("%s/global-state:%s", core.FuncName(fn), gl.Name()), c.P.Pos(ins.Pos()), "package-level variable "+gl.Name()+" is modified during a build: results of one build (e.g. a stored link) leak into the next, whose store never received that block")
+			}
+		}
+	}
+	if n == 0 {
+		r.OK(rule, "data/builder/*/no-global-state", "-", fmt.Sprintf("%d builder functions: no package-level variable is written outside init", nfun))
+	}
 }
